@@ -5,7 +5,7 @@ from ..refs.soo_family import SweepOracle
 
 ID = "C08"
 LEVEL = "model_checking"
-RULE = ("{SOO, StoSOO(k=1,2,3), DOO(default delta, user delta)} x {Binary 1-D, Kary(3) 1-D, DimensionBinary 2-D, Binary 2-D} x depth caps "
+RULE = ("{SOO, StoSOO(k=1,2,3), DOO(default delta, user delta)} (incl. depth caps 2 and 3 that saturate within the horizon: the run then ends when pull has nothing left) x {Binary 1-D, Kary(3) 1-D, DimensionBinary 2-D, Binary 2-D} x depth caps "
         "{n, 2n}; every reward sequence in {0,1,-1}^T (E-full) and every script within k deviations of base scripts over 100 rounds "
         "(E-dev).  A model of the tree (leaves per depth in creation order, evaluation ledger) is updated from the recorded "
         "make_children calls; every expansion and every hand-out is judged against the published optimistic rule.  "
@@ -20,6 +20,7 @@ def _cfgs(tier):
     variants = [("SOO", dict(n=100, h_max=100)), ("SOO", dict(n=100, h_max=200)),
                 ("StoSOO", dict(n=100, k=1, h_max=100)), ("StoSOO", dict(n=100, k=2, h_max=100)),
                 ("StoSOO", dict(n=100, k=3, h_max=200)), ("StoSOO", dict(n=100, k=None, h_max=100, delta=0.5)),
+                ("StoSOO", dict(n=100, k=1, h_max=2)), ("StoSOO", dict(n=100, k=2, h_max=2)), ("StoSOO", dict(n=100, k=2, h_max=3)),
                 ("DOO", dict(n=100)), ("DOO", dict(n=100, delta=["pow", 1.0, 0.5])), ("DOO", dict(n=100, delta=["pow", 3.0, 0.9]))]
     for algo, params in variants:
         for part, K, box in (("Binary", None, "u1"), ("Kary", 3, "u1"), ("DimensionBinary", None, "u2"), ("Binary", None, "u2")):
